@@ -7,8 +7,9 @@ import json, os, subprocess, sys, time
 ISO = "--iso" in sys.argv
 if ISO:
     sys.argv.remove("--iso")
-VERIF = "/tmp/verif_iso" if ISO else "/verif"
-REPO = "/tmp/iso_repo" if ISO else "/repo"
+TAG = os.environ.get("ISO_TAG", "")
+VERIF = ("/tmp/verif_iso" + TAG) if ISO else "/verif"
+REPO = ("/tmp/iso_repo" + TAG) if ISO else "/repo"
 d = os.path.abspath(sys.argv[1])
 meta = json.load(open(os.path.join(d, "meta.json")))
 pids = sys.argv[2:] or [meta["property"]]
